@@ -11,13 +11,15 @@ filter=${1:-}; scale=${2:-1}
 for d in seeded/*/; do
   name=$(basename $d)
   [[ -n "$filter" && "$name" != *$filter* ]] && continue
+  if python3 -c "import json,sys;sys.exit(0 if json.load(open('$d/meta.json')).get('retired') else 1)"; then echo "$name: retired (see meta.json)"; continue; fi
   prop=$(python3 -c "import json;print(json.load(open('$d/meta.json'))['property'])")
   start=$(date +%s)
   wt=/tmp/seedwt-$$-$name
   where=""
   for base in $(python3 -c "import json;m=json.load(open('$d/meta.json'));print(m.get('base_commit','') if m.get('pin_base') else '')") HEAD 864492d 9004744; do
     git -C /repo worktree add -q --detach $wt $base 2>/dev/null || continue
-    if git -C $wt apply /verif/$d/patch.diff 2>/dev/null; then where=$base; break; fi
+    pf=/verif/$d/patch.diff; [ "$base" = HEAD ] && [ -f /verif/$d/patch_head.diff ] && pf=/verif/$d/patch_head.diff
+    if git -C $wt apply --3way $pf >/dev/null 2>&1 && ! git -C $wt diff --name-only --diff-filter=U | grep -q .; then where=$base; break; fi
     git -C /repo worktree remove --force $wt
   done
   if [ -z "$where" ]; then echo "$name: patch applies to no known commit"; continue; fi
